@@ -65,7 +65,12 @@ RefFaults(s) == (IF s.ownerobj # 0 THEN {F("value", s.id, "ref_self", "", 0, 0, 
                 \cup {F("value", s.id, k, "", 0, 0, "") : k \in {"ref_missing", "ref_loop1", "ref_loop2"}}
 \* the same for values that are file positions (Prev, XRefStm, startxref): own section, past the end of the file,
 \* the newest section (so that every chain reaching it starts over), the middle of an object
-OffFaults(s) == {F("value", s.id, k, "", 0, 0, "") : k \in {"off_self", "off_dangling", "off_cycle", "off_garbage"}}
+\* Offsets come in two styles: the first byte of the target (`xref`, or the object number of a cross-reference stream)
+\* or the end-of-line / white space just before it (some producers write that, readers skip the white space).  The
+\* styled kinds: off_ws - the right target, in the second style; off_self_ws / off_cycle_ws - the two cycle faults in
+\* the second style (a cycle guard that remembers positions must not depend on the style)
+OffKinds == {"off_self", "off_dangling", "off_cycle", "off_garbage", "off_ws", "off_self_ws", "off_cycle_ws"}
+OffFaults(s) == {F("value", s.id, k, "", 0, 0, "") : k \in OffKinds}
 
 \* ------------------------------------------------------------------ encrypted documents: a string that is no ciphertext
 \* Every other replacement value is written the way a writer would write it - encrypted.  In an encrypted document
@@ -117,7 +122,7 @@ PerSiteRetypes(s) ==
       rn == Cardinality(BaseKinds \ {s.base, "null", "stream"})
   IN d1 + dn * NV + r1 + rn * NV
 PerSite(s) == PerSiteRetypes(s) + (IF s.cont = "dict" THEN 1 ELSE 0)
-              + (IF s.cls = "offset" THEN 4 ELSE 3 + (IF s.ownerobj # 0 THEN 1 ELSE 0))
+              + (IF s.cls = "offset" THEN 7 ELSE 3 + (IF s.ownerobj # 0 THEN 1 ELSE 0))
               + (IF s.enc /\ s.cls = "value" THEN Cardinality(RawForms) ELSE 0)
 NPos(n, stride) == IF n = 0 THEN 0 ELSE ((n - 1) \div stride) + 1 + (IF (n - 1) % stride = 0 THEN 0 ELSE 1)
 ExpectedAt(a) ==
@@ -162,7 +167,7 @@ Applicable ==
          /\ (fault.kind = "delete" => at.cont = "dict")
          /\ (fault.kind = "ref_self" => at.ownerobj # 0)
          /\ (fault.kind \in {"ref_self", "ref_missing", "ref_loop1", "ref_loop2"} => at.cls = "value")
-         /\ (fault.kind \in {"off_self", "off_dangling", "off_cycle", "off_garbage"} => at.cls = "offset")
+         /\ (fault.kind \in OffKinds => at.cls = "offset")
          /\ (fault.kind = "retype" => fault.to # "stream" /\ fault.variant \in VariantsOf(fault.to))
          /\ (fault.kind = "rawstr" => at.enc /\ at.cls = "value" /\ fault.variant \in RawForms)
     [] fault.cls = "payload" -> at.t = "stream" /\ fault.site = at.id /\ fault.pos < at.n
@@ -179,6 +184,7 @@ KindsPresent ==
          /\ \A k \in BaseKinds \ {at.base} : \E g \in sp : g.kind = "retype" /\ KindOf(g.to) = k    \* every other type
          /\ \A k \in DirectKinds \ {at.base} : \A v \in VariantsOf(k) : F("value", at.id, "retype", k, v, 0, "") \in sp
          /\ (at.cont = "dict" => \E g \in sp : g.kind = "delete")                                  \* removing the key
+         /\ (at.cls = "offset" => \A k \in OffKinds : \E g \in sp : g.kind = k)                    \* every offset fault and style
          /\ (at.cls = "value" =>
                /\ \A k \in {"ref_missing", "ref_loop1", "ref_loop2"} : \E g \in sp : g.kind = k       \* nowhere / cycle
                /\ (at.ownerobj # 0 => \E g \in sp : g.kind = "ref_self")                           \* itself
